@@ -19,7 +19,7 @@ NEEDS = ["harness", "cli"]
 RULE = ("(A) random call sets with missing/multiallelic genotypes x maps, with and without projection: mass(stdout) + X == R and Y == R for the "
         "summary 'Skipped X/Y', the multiset of 'Skipping site c:p' lines (-v) == the reference's skipped records (each exactly once), no summary "
         "when nothing is skipped; --strict (combined with -q / -qq / -v / -vv / none) fails at the FIRST would-be-skipped record naming it and otherwise prints identical output; L1: every "
-        "counted record's contribution sums to 1 (1e-9), incl. cohorts of 86-220 samples and of 500-1200 samples projected to about half (the band where the binomial coefficients leave the f64 range one after the other). (B) for streams of R records (R<=12 quick, <=40 thorough) a failing record at EVERY position "
+        "counted record's contribution sums to 1 (1e-9), incl. cohorts of 86-220 samples and of 500-1200 samples projected to about half (the band where the binomial coefficients leave the f64 range one after the other). One run per shard projects to thousands of cells with -t 2..8. (B) for streams of R records (R<=12 quick, <=40 thorough) a failing record at EVERY position "
         "0..R-1 x kind {ploidy error in a selected sample (4 containers), malformed VCF line (vcf, vcf.gz), BCF stream truncated inside record i "
         "(raw bcf, bgzf bcf), BGZF block i with a corrupted CRC (vcf.gz, bcf)}: exit != 0, empty stdout, diagnostic on stderr (naming contig:pos for "
         "ploidy errors). Non-trivial: a run with >=1 skipped and >=1 counted record, or any fault case; distinct = digest(input, argv).")
@@ -50,10 +50,23 @@ def check_A(S, p):
         smap = None if rng.random() < 0.2 else G.random_sample_map(rng, cs.samples)
         eff_map = smap if smap is not None else [(s, None) for s in cs.samples]
         project = G.random_project(rng, eff_map) if rng.random() < 0.5 else None
+        wide_threads = []
+        if i == 1:
+            # a projected spectrum of thousands of cells (two populations of 33-40 samples) and several threads: every counted record
+            # still weighs exactly one, records fixed for the ALT allele included (the last cell)
+            na_, nb_ = rng.randint(33, 40), rng.randint(33, 40)
+            cs = G.random_callset(rng, nsamples=na_ + nb_, nrecords=24, p_missing=rng.choice([0.0, 0.02]), p_multi=0.0, extras=False)
+            for r_ in cs.records[:4]:
+                r_.gts = [gt((1, 1)) for _ in r_.gts]
+                r_.alts = r_.alts or ["C"]
+            smap = [(s_, "A" if j < na_ else "B") for j, s_ in enumerate(cs.samples)]
+            project = [rng.choice([64, 63, 2 * na_ - 2]), rng.choice([64, 65, 2 * nb_ - 2])]
+            wide_threads = ["-t", str(rng.choice([2, 3, 4, 8]))]
+            S.count("A_wide_target_runs")
         prec = rng.choice([3, 6, 10])
         container = rng.choice(E.CONTAINERS)
         data = E.encode(cs, container, rng)
-        extra = ["-v"] + (["--precision", str(prec)] if project is not None else [])
+        extra = ["-v"] + (["--precision", str(prec)] if project is not None else []) + wide_threads
         r = E.cli_create(data, smap, project=project, extra=extra, via=rng.choice(["stdin", "path"]))
         S.count("A_runs")
         exp = reference_create(cs, smap, project)
